@@ -577,12 +577,56 @@ def pred_memory(prog, rep, rule="PRED"):
                             if len(pos) == 1:
                                 gd = "w.start" if pos[0][0] == "starttime" else "w.end"
                         found.add((gd, lit))
+            if not found:
+                found = _loop_pred(fi, rep, rule)
         except NonAffine as e:
             rep.undecided(rule, fi.short, "window predicate", f"not affine: {e}", fi.loc())
             continue
         out[m] = found
         _judge_pred(found, rep, rule, fi.short, "window predicate", fi.loc(), allow_prefilter=False)
     return out
+
+
+def _loop_pred(fi, rep, rule):
+    """window predicate of a filter written as a loop with `continue` (or a guarded count/append): the literals on the
+    paths that keep the event, each taken with the window edges it is guarded by"""
+    from .paths import summarize
+
+    loops = [n for n in walk_own(fi.node) if isinstance(n, ast.For) and isinstance(n.target, ast.Name)]
+    found = set()
+    for lp in loops:
+        var = lp.target.id
+        mapping = {f"{var}.timestamp": EV_START, f"{var}.duration": EV_DUR, "starttime": W_START, "endtime": W_END}
+        try:
+            sums, _g = summarize(fi=None, body=lp.body, env=Env(fi, None, inline_locals=False), limit=200)
+        except Exception:
+            continue
+        kept = [s_ for s_ in sums if s_.kind == "return" and (s_.calls or s_.writes or any(isinstance(x, ast.AugAssign) for x in s_.stmts))]
+        if not kept or len(kept) == len(sums):
+            continue
+        per_path = []
+        for s_ in kept:
+            ws = any(t in ("starttime", "starttime is not None") and p_ for t, p_ in s_.opaque)
+            we = any(t in ("endtime", "endtime is not None") and p_ for t, p_ in s_.opaque)
+            fs = set()
+            for l in s_.lits:
+                l2 = Lit(_rename(l.form, mapping), l.op)
+                if W_START in l2.form.atoms():
+                    fs.add(("w.start", l2))
+                elif W_END in l2.form.atoms():
+                    fs.add(("w.end", l2))
+            per_path.append((ws, we, fs))
+        full = [fs for ws, we, fs in per_path if ws and we]
+        if not full:
+            continue
+        acc = set.intersection(*full)
+        # a kept path on which an edge is given must carry that edge's conjunct(s)
+        for ws, we, fs in per_path:
+            want = {x for x in acc if (x[0] == "w.start" and ws) or (x[0] == "w.end" and we)}
+            if not want <= fs:
+                rep.violation(rule, fi.short, "window predicate: every kept path filters", f"a path keeps the event although a window edge is given and its conjunct is not tested ({sorted(map(str, want - fs))})", fi.loc(lp))
+        found |= acc
+    return found
 
 
 def _sqlite_window_binding(e, fi, prog, which):
@@ -818,15 +862,33 @@ def limit_rule(prog, rep, rule="LIMIT"):
                 rep.undecided(rule, fi.short, "[:limit]", "no slice by limit", fi.loc())
                 continue
             sn = g.node_of(slices[-1])
-            neg = [n for n in g.nodes if n.kind == "branch" and isinstance(n.ast, ast.Compare) and norm(n.ast) in ("limit < 0", "0 > limit", "limit <= -1")]
-            okn = False
-            if len(neg) == 1 and g.dominates(neg[0].id, sn):
-                for v, lab in g.succ[neg[0].id]:
-                    if lab and lab[2] is True:
-                        a = g.nodes[v].ast
-                        if isinstance(a, ast.Assign) and norm(a.targets[0]) == "limit" and norm(a.value) in ("sys.maxsize", "None", "len(events)"):
-                            okn = True
-            rep.check(okn, rule, fi.short, "negative limit", "limit < 0 is turned into an unbounded slice before [:limit]", "a negative limit reaches events[:limit] unchanged (Python drops elements from the end) or is not handled: 'negative -> all' is broken", fi.loc(slices[0]))
+
+            def sign(lab):
+                """what an edge says about the sign of limit: 'neg' / 'nonneg' / None"""
+                if not lab or lab[0] != "cond":
+                    return None
+                t, pol = norm(lab[1]), lab[2]
+                if t in ("limit < 0", "0 > limit", "limit <= -1"):
+                    return "neg" if pol else "nonneg"
+                if t in ("limit >= 0", "0 <= limit", "limit > -1"):
+                    return "nonneg" if pol else "neg"
+                if t in ("limit > 0", "0 < limit", "limit >= 1"):
+                    return "nonneg" if pol else "neg"  # limit == 0 never gets here (rule above)
+                return None
+
+            unbounded = {g.node_of(d) for d in local_defs(fi, "limit") if isinstance(d, ast.Assign) and norm(d.value) in ("sys.maxsize", "None", "len(events)")}
+            r1 = g.reach_filtered(g.entry, lambda u, v, lab: sign(lab) != "nonneg" and v not in unbounded)
+            okn = sn not in r1
+            rep.check(okn, rule, fi.short, "negative limit", "limit < 0 never reaches [:limit] as it is (re-bound to an unbounded value, or the slice is skipped)", "a negative limit reaches events[:limit] unchanged (Python drops elements from the end) or is not handled: 'negative -> all' is broken", fi.loc(slices[0]))
+            rets_ = [n.id for n in g.nodes if n.kind == "stmt" and isinstance(n.ast, ast.Return) and not (isinstance(n.ast.value, ast.List) and not n.ast.value.elts)]
+            r2 = g.reach_filtered(g.entry, lambda u, v, lab: sign(lab) != "neg" and v != sn)
+            rep.check(not any(x in r2 for x in rets_), rule, fi.short, "positive limit applied", "every path with a positive limit passes the [:limit] slice", "a read with a positive limit can return without cutting the list to the limit", fi.loc(slices[0]))
+            for d in local_defs(fi, "limit"):
+                if isinstance(d, ast.Assign) and g.node_of(d) not in unbounded:
+                    rep.violation(rule, fi.short, f"{norm(d)[:40]}", f"`{norm(d)[:60]}` changes the limit the caller asked for", fi.loc(d))
+                elif isinstance(d, ast.Assign):
+                    r3 = g.reach_filtered(g.entry, lambda u, v, lab: sign(lab) != "neg")
+                    rep.check(g.node_of(d) not in r3, rule, fi.short, f"{norm(d)[:40]}", "limit re-bound to an unbounded form only when negative", f"`{norm(d)[:60]}` replaces a non-negative limit", fi.loc(d))
         elif cname == "SqliteStorage":
             ss = _site(prog, "get_events", "select", "events")
             if len(ss) == 1:
